@@ -1454,3 +1454,54 @@ def _influential_reads(prog, roots, cname):
                         if t and cname in t and sub.attr not in own:
                             out.add(sub.attr)
     return out
+
+
+# ---------------------------------------------------------------------------
+# P8 attribute sweep of the emulator
+# ---------------------------------------------------------------------------
+
+def rule_P8(ctx, rid='P8'):
+    ctx.rule(rid, 'attribute sweep: the writer that stores every attribute of a fitted network '
+             'skips only the attributes it stores explicitly elsewhere (the weight arrays); the '
+             'reader restores every swept key of network i')
+    f = ctx.program.func('NeuralNetworkEmulator.write')
+    loops = [lp for lp in walk_no_nested(f.node) if isinstance(lp, ast.For) and
+             isinstance(lp.iter, ast.Attribute) and lp.iter.attr == '__dict__' or
+             (isinstance(lp, ast.For) and isinstance(lp.iter, ast.Call) and
+              dotted(lp.iter.func) == 'vars')]
+    ctx.require(len(loops) == 1, 'NeuralNetworkEmulator.write: attribute sweep not found')
+    lp = loops[0]
+    kv = lp.target.id if isinstance(lp.target, ast.Name) else None
+    # keys stored explicitly as datasets: 'coefs_{}_{}' -> 'coefs_'
+    explicit = set()
+    for e in writer_table(f):
+        if e.kind == 'dataset' and '{}' in e.key:
+            explicit.add(e.key.split('{}')[0].rstrip('_') + '_')
+    skips = []
+    for st in ast.walk(lp):
+        if isinstance(st, ast.If) and any(isinstance(x, ast.Continue) for x in st.body):
+            skips.append(st)
+    ok = True
+    why = 'the sweep skips only %s, which are stored as datasets' % sorted(explicit)
+    for st in skips:
+        t = st.test
+        good = isinstance(t, ast.Compare) and len(t.ops) == 1 and isinstance(t.ops[0], ast.In) \
+            and isinstance(t.left, ast.Name) and t.left.id == kv and \
+            isinstance(t.comparators[0], (ast.List, ast.Tuple, ast.Set)) and \
+            all(isinstance(x, ast.Constant) and x.value in explicit
+                for x in t.comparators[0].elts)
+        if not good:
+            ok = False
+            why = 'the sweep also skips attributes by `%s`: they are neither swept nor stored ' \
+                  'explicitly, so a restored network silently falls back to defaults for them' \
+                  % unparse(t)
+    ctx.ob(rid, 'NeuralNetworkEmulator.write:sweep-skips-only-explicit', ok, f.where(lp), why)
+    # every swept attribute is stored under '<attr>_<i>'
+    stores = [e for e in writer_table(f) if e.kind == 'attr' and '<dyn>' in e.key]
+    ctx.ob(rid, 'NeuralNetworkEmulator.write:sweep-stores', bool(stores), f.where(lp),
+           'swept attributes are stored under a key derived from their own name')
+    r = ctx.program.func('NeuralNetworkEmulator.read')
+    sets = [n for n in walk_no_nested(r.node) if isinstance(n, ast.Call) and
+            dotted(n.func) == 'setattr']
+    ctx.ob(rid, 'NeuralNetworkEmulator.read:sweep-restores', bool(sets), r.where(),
+           'the reader restores swept attributes by name with setattr')
